@@ -114,12 +114,17 @@ def clientDo (dialOk : Bytes → Bool) (s : St) (scheme host : Bytes) (keep : Bo
 inductive Op
   | newHC (addr : Bytes) (isTLS : Bool) (cfgOk : Bool := true)  -- a caller-made HostClient
   | client (scheme host : Bytes) (keep : Bool) (cfgOk : Bool := true)   -- Client.Do (also every hop of Client.DoRedirects); cfgOk: of the HostClient it may create
+  | closeIdle (i : Nat)                                         -- HostClient.CloseIdleConnections on hcs[i]: its idle list is emptied (the connections are closed, never handed to anyone else)
   | host (i : Nat) (scheme : Bytes) (keep : Bool)               -- HostClient.Do on hcs[i] (also every hop of HostClient.DoRedirects, and LBClient after its choice of i)
   deriving DecidableEq, Repr
 
 def step (dialOk : Bytes → Bool) (s : St) : Op → St × Option Res
   | .newHC addr isTLS cfgOk => ({ s with hcs := s.hcs ++ [⟨addr, isTLS, [], cfgOk⟩] }, none)
   | .client scheme host keep cfgOk => let r := clientDo dialOk s scheme host keep cfgOk; (r.1, some r.2)
+  | .closeIdle i =>
+    match s.hcs[i]? with
+    | some hc => ({ s with hcs := s.hcs.set i { hc with pool := [] } }, none)
+    | none => (s, none)
   | .host i scheme keep => let r := hcDo dialOk s i scheme keep; (r.1, some r.2)
 
 /-- run a list of operations, collecting (operation, result, state after) -/
